@@ -366,6 +366,6 @@ func TestReplay(t *testing.T) {
 		t.Skip("no replay for this part")
 	}
 	for i := 0; i < vh.ReplayRuns(); i++ {
-		rec.Check(t, &c, func() vh.Outcome { return runCase(t, &c) })
+		rec.Check(t, &c, func() vh.Outcome { return vh.Confirm(func(int) vh.Outcome { return runCase(t, &c) }) })
 	}
 }
